@@ -6788,7 +6788,6 @@ def subn(
     paths.reverse()  # we do this because there might be deletions which will change indices which follow them, so we do higher indices first
 
     total_count = 0
-    skip_sub = False
     dirty = set()  # {AST, ...}
     gen = self.search(pat, nested, ctx=ctx, on=on, self_=self_, recurse=recurse, scope=scope, back=back, asts=asts)
 
@@ -6809,9 +6808,11 @@ def subn(
         elif (parent := matched.parent) and parent.a.__class__ in ASTS_LEAF_FTSTR:  # NotImplementedError, can't currently replace direct Constant child of f/t-string, TODO: allow this when JoinedStr.put_one(field=values) is implemented
             continue
 
+        subbed = False
+
         while True:  # for `loop`
             if callback:
-                if skip_sub := callback(matched):
+                if callback(matched):
                     break
 
             repl_ = repl.copy()  # this is duplication of repl template so no options needed
@@ -7000,6 +7001,7 @@ def subn(
                     one = False
 
             replaced = matched.replace(repl_, one=one, **options)
+            subbed = True
 
             if callback_after:
                 callback_after(replaced)
@@ -7017,7 +7019,7 @@ def subn(
 
             break
 
-        if not skip_sub:
+        if subbed:  # a location counts if anything was substituted there, also if the callback skipped a later `loop` iteration
             if not (count := count - 1):
                 break
 
